@@ -84,6 +84,7 @@ type Fake struct {
 	// scripts
 	Next       map[string]Outcome
 	SnapFail   bool
+	GetDelayMs int32 // REST GET answered this late (atomic)
 	CpFail     bool
 	ResizeFail bool
 	Jitter     int // max per-call delay in 100us units (0 = none)
@@ -622,6 +623,9 @@ func (f *Fake) infoLocked() rest.Replica {
 }
 
 func (f *Fake) handleReplica(w http.ResponseWriter, r *http.Request) {
+	if d := atomic.LoadInt32(&f.GetDelayMs); d > 0 && r.Method == "GET" {
+		time.Sleep(time.Duration(d) * time.Millisecond)
+	}
 	f.mu.Lock()
 	defer f.mu.Unlock()
 	if !f.Alive {
